@@ -42,6 +42,15 @@ CLAUSES = {
     "ResumedAxisHasEventTimes": ("C14",),
     "ResumedSameSuccess": ("C14",),
     "RowPerKeptStep": ("C15",),
+    "MemoryRowsAreSolverValues": ("C15",),
+    "OutputFilesWritten": ("C15",),
+    "FileRowsAreSolverValues": ("C15",),
+    "LabelsNameColumns": ("C15",),
+    "PlotLoaderReadsFile": ("C15",),
+    "CsvExportExact": ("C15",),
+    "QueriesReturnRightColumns": ("C15",),
+    "FileHasOneRowPerKeptStep": ("C15",),
+    "ReplayFromCsvReproduces": ("C15",),
     "OneRowPerStep": ("C15",),
     "StoredRowIsAcceptedStep": ("C15",),
     "FailureBumpsExitCode": ("C17",),
@@ -217,7 +226,7 @@ def _task(sc):
     return tdsdrv.encode_trace(res, sc["tid"], sc)
 
 
-def run_and_validate(scenarios, report, timeout=300, label="traces"):
+def run_and_validate(scenarios, report, timeout=300, label="traces", task="vh.tdsfam:_task"):
     """
     Run every scenario on the real code in worker processes, encode, validate with TLC.
     Returns list of (scenario, outcome) where outcome is
@@ -225,7 +234,7 @@ def run_and_validate(scenarios, report, timeout=300, label="traces"):
     """
     for i, sc in enumerate(scenarios):
         sc["tid"] = i + 1
-    results = run_tasks("vh.tdsfam:_task", scenarios, nproc=NCPU, timeout=timeout)
+    results = run_tasks(task, scenarios, nproc=NCPU, timeout=timeout)
     traces = []
     for sc, r in zip(scenarios, results):
         if r["status"] == "ok":
